@@ -16,6 +16,9 @@ def plan(tier):
             "sniff_at_nonzero_offset", "sniff_seek_at_offset", "sniff_get_kind_at_offset", "sniff_after_consuming",
             "sniff_second_block_same_format", "header_unicode_whitespace",
             "records_as_copies_clone_serde_clone_from", "read_then_records_on_one_reader",
+            "reads0_then_records", "reads1_then_records", "reads2_then_records", "reads3_then_records",
+            "fresh_writer_after_another_writers_hard_error", "hard_error_in_wrapped_block_then_wrapped_write",
+            "hard_error_swept_over_every_byte_of_the_record",
             "records_through_nth_step_by_count_last", "reader_from_file", "either_from_file_and_get_kind_file",
             "writer_from_bufwriter", "writer_to_file_flush", "writer_to_file_dropped_unflushed",
             "io_interrupted_reads", "io_interrupted_before_first_byte", "io_interrupted_twice_in_a_row",
